@@ -5,7 +5,10 @@ from framework import coq_bs, coq_z, coq_list, coq_opt
 ID = 'C02'
 COQ_IMPORTS = ['G_gff', 'C02_Model']
 GENERATORS = ['gen_gff']
-RULE = ('four streams: (edit) features read from generated GFF text and then edited through ft.name / ft.id / ft.seqid / ft.type / '
+RULE = ('five streams: (hist) histories on the same live FeatureLists / texts: repeated GFF cycles and TSV/CSV writes with different '
+        'column selections in any order, in-place edits (aliases, _gff entries, locations) in between, mutation of every returned '
+        'object, features sharing Location objects, a second list / text colliding on ids, lengths and coordinates; every step is '
+        'compared with the pure model on the current abstract value; (edit) features read from generated GFF text and then edited through ft.name / ft.id / ft.seqid / ft.type / '
         'ft.meta.score / phase / evalue before the write-read-write cycles; (obj) abstract FeatureLists (1-4 features, 1-4 locations on any strand given in any order, attribute keys '
         'and values over printable ASCII + tab including tab ; = , % & space, list values, per-location attributes, optional '
         'score/phase/source/seqid/Name/ID at the _gff level and/or as Feature.meta aliases) written by sugar, read back, written '
@@ -29,6 +32,10 @@ ASSUMPTIONS = ['Python str restricted to ASCII (code points < 128) in every fiel
                'no location-level seqid/type/ID, and neighbouring features do not share (ID, type, seqid)',
                'score literals of the form [-]d+.d+ with <= 15 digits and no redundant zeros (so that repr(float(tok)) == tok)']
 
+MODELLED_FUNCS = {'sugar/_io/gff.py': ['read_fts_gff', 'write_fts_gff'],
+                  'sugar/core/fts.py': ['LocationTuple.__new__', 'LocationTuple.range', 'Location.__init__', 'Feature.__init__',
+                                        'FeatureList.tolists', 'FeatureList.topandas', 'FeatureList.frompandas'],
+                  'sugar/_io/tab/xsv.py': ['_read_fts_xsv', '_write_fts_xsv', 'read_fts_tsv', 'read_fts_csv', 'write_fts_tsv', 'write_fts_csv']}
 RESERVED_CHARS = '\t;=,%& '
 SEPS = {'tab': '\t', 'comma': ',', 'semi': ';', 'pipe': '|', 'space': ' '}
 XKEYS = ['type', 'start', 'stop', 'len', 'strand']
@@ -79,15 +86,31 @@ def obs_fts(fts):
 def build_fts(spec_fts):
     from sugar.core.fts import Feature, FeatureList, Location
     fts = []
+    built = []
     for f in spec_fts:
         locs = []
-        for a, b, sd, lg in f['locs']:
-            m = None if lg is None else {'_gff': {k: dec(v) for k, v in lg}}
-            locs.append(Location(a, b, strand=sd, meta=m))
+        sh = f.get('_share')
+        if sh is not None and sh < len(built) and spec_fts[sh]['locs'] == f['locs']:
+            locs = list(built[sh])                     # the very same Location objects in two features
+        else:
+            for a, b, sd, lg in f['locs']:
+                m = None if lg is None else {'_gff': {k: dec(v) for k, v in lg}}
+                locs.append(Location(a, b, strand=sd, meta=m))
+        built.append(list(locs))
         meta = {k: dec(v) for k, v in f['meta']}
         if f['gff'] is not None:
             meta['_gff'] = {k: dec(v) for k, v in f['gff']}
-        fts.append(Feature(locs=locs, meta=meta))
+        ctor = f.get('_ctor')
+        plain = all(l[3] is None for l in f['locs']) and sh is None
+        if ctor == 'kw' and plain and len(f['locs']) == 1:
+            a, b, sd, _ = f['locs'][0]
+            fts.append(Feature(start=a, stop=b, strand=sd, meta=meta))            # start/stop/strand keywords
+        elif ctor == 'tuple' and plain:
+            fts.append(Feature(locs=[(a, b, sd) for a, b, sd, _ in f['locs']], meta=meta))   # locations given as tuples
+        elif ctor == 'type' and list(meta) == ['type']:
+            fts.append(Feature(meta['type'], locs=locs))                           # type positional, no meta
+        else:
+            fts.append(Feature(locs=locs, meta=meta))
     return FeatureList(fts)
 
 
@@ -119,14 +142,46 @@ def _write(fts, via):
     return fts.tofmtstr('gff')
 
 
+def _has_id(f):
+    return any(k == 'id' for k, _ in f[0]) or any(k == 'ID' for k, _ in (f[1] or []))
+
+
+def _invented_ids(o0, w1):
+    """the ID the writer invents for the i-th feature (split, without ID) -> canonical '~id<i>' (DESIGN 3.2: random GFF IDs)"""
+    mapping = {}
+    lines = [ln for ln in w1.split('\n')[1:-1] if not ln.startswith('#')]
+    pos = 0
+    for i, f in enumerate(o0):
+        n = len(f[2])
+        if n > 1 and not _has_id(f) and pos < len(lines):
+            cols = lines[pos].split('\t')
+            m = re.search(r'(?:^|;)ID=([a-z]{10})(?:;|$)', cols[8]) if len(cols) == 9 else None
+            if m:
+                mapping.setdefault(m.group(1), '~id%d' % i)
+        pos += n
+    return mapping
+
+
+def _subst(v, mapping):
+    if isinstance(v, str):
+        for a, b in mapping.items():
+            v = v.replace(a, b)
+        return v
+    if isinstance(v, list):
+        return [_subst(x, mapping) for x in v]
+    return v
+
+
 def _cycle(x, via):
     o0 = obs_fts(x)
     w1 = _write(x, via)
+    assert obs_fts(x) == o0, 'writing changed the FeatureList'
     x1 = _read(w1, via)
     o1 = obs_fts(x1)
     w2 = _write(x1, 'str')
     w3 = _write(_read(w2, 'str'), 'str')
-    return [o0, w1, o1, w2, w3]
+    mp = _invented_ids(o0, w1)
+    return [o0, _subst(w1, mp), _subst(o1, mp), _subst(w2, mp), _subst(w3, mp)] if mp else [o0, w1, o1, w2, w3]
 
 
 def impl(case):
@@ -146,16 +201,37 @@ def impl(case):
                 else:
                     ft.meta[key] = v
         return _cycle(x, 'str')
-    if k == 'xsv':
+    if k == 'hist':
+        return impl_hist(case)
+    if k == 'opt':
         from sugar import read_fts
-        fts = build_fts(case['fts'])
-        sep = SEPS[case['_sep']]
-        fmt = case['_fmt']
-        keys = case['keys']
+        comments = []
+        kw = {}
+        if case.get('filt') is not None:
+            kw['filt'] = case['filt']
+        if case.get('fast') is not None:
+            kw['filt_fast'] = case['fast']
+        if case.get('default') is not None:
+            kw['default_ftype'] = case['default']
+        x = read_fts(io.StringIO(case['t']), fmt='gff', comments=comments, **kw)
+        o0 = obs_fts(x)
+        w = x.tofmtstr('gff', header=case['header']) if case.get('header') is not None else x.tofmtstr('gff')
+        assert w == x.tofmtstr('gff', **({'header': case['header']} if case.get('header') is not None else {})) or _invented_ids(o0, w)
+        mp = _invented_ids(o0, w)
+        return [o0, [c.rstrip('\n') for c in comments], _subst(w, mp) if mp else w]
+    if k == 'xsv':
+        return _xsv(build_fts(case['fts']), case['keys'], case['_sep'], case['_fmt'], case.get('_keystr'), case.get('ftype'))
+    raise ValueError(k)
+
+
+def _xsv(fts, keys, sepname, fmt, keystr, ftype=None):
+    if True:
+        from sugar import read_fts
+        sep = SEPS[sepname]
         kw = {}
         if (fmt, sep) not in (('tsv', '\t'), ('csv', ',')):
             kw['sep'] = sep
-        text = fts.tofmtstr(fmt, keys=' '.join(keys) if case.get('_keystr') else list(keys), **kw)
+        text = fts.tofmtstr(fmt, keys=' '.join(keys) if keystr else list(keys), **kw)
         lines = text.split('\n')
         assert lines[-1] == '' and lines[0].split(sep) == keys, 'header %r' % lines[0]
         rows = []
@@ -166,6 +242,9 @@ def impl(case):
             for kk, c in zip(keys, cells):
                 row.append(int(c) if kk in ('start', 'stop', 'len') else (None if c == '' and kk == 'type' else c))
             rows.append(row)
+        assert [list(r) for r in fts.tolists(' '.join(keys))] == [list(r) for r in fts.tolists(tuple(keys))], 'tolists: keys as str / tuple'
+        if ftype is not None:
+            kw['ftype'] = 'strand' if ftype[0] == 'col' else ftype[1]
         back = read_fts(io.StringIO(text), fmt=fmt, **kw)
         res = []
         for ft in back:
@@ -176,7 +255,113 @@ def impl(case):
             assert type(l.start) is int and type(l.stop) is int
             res.append([t, l.start, l.stop, str(l.strand)])
         return [rows, res]
-    raise ValueError(k)
+
+
+# ---- histories (state independence): several calls on the same live objects / texts, edits in between; the model is pure, so
+# ---- every step is compared with the model applied to the CURRENT abstract value
+
+def _spec_set(d, k, v):
+    for kv in d:
+        if kv[0] == k:
+            kv[1] = v
+            return
+    d.append([k, v])
+
+
+def hist_apply(lists, step):
+    """effect of an editing step on the abstract lists (mirrors the in-place edit of the live objects)"""
+    op = step[0]
+    if op in ('edit', 'gffattr', 'relocs'):
+        fts = lists[step[1]]
+        if not fts:
+            return
+        f = fts[step[2] % len(fts)]
+        if op == 'edit':
+            _spec_set(f['meta'], step[3], step[4])
+        elif op == 'gffattr':
+            if f['gff'] is None:
+                f['gff'] = []
+            _spec_set(f['gff'], step[3], step[4])
+        else:
+            f['locs'] = [[a, b, sd, None] for a, b, sd in step[3]]
+
+
+def hist_trace(case):
+    """[(step, abstract value at that step)] for the steps that produce output"""
+    import copy
+    lists = copy.deepcopy(case['lists'])
+    out = []
+    for st in case['steps']:
+        if st[0] == 'gff':
+            out.append((st, copy.deepcopy(lists[st[1]])))
+        elif st[0] == 'xsv':
+            out.append((st, copy.deepcopy(lists[st[1]])))
+        elif st[0] == 'rtext':
+            out.append((st, case['texts'][st[1]]))
+        else:
+            hist_apply(lists, st)
+    return out
+
+
+def impl_hist(case):
+    from sugar.core.fts import Location
+    live = [build_fts(l) for l in case['lists']]
+    res = []
+    for st in case['steps']:
+        op = st[0]
+        if op == 'gff':
+            x = live[st[1]]
+            before = obs_fts(x)
+            r = _cycle(x, st[2])
+            # mutate everything that was returned / read on the way: the operand and a repeat must not notice
+            y = _read(_write(x, 'str'), 'str')
+            for ft in y:
+                ft.name = 'mutated'
+                ft.meta._gff['mutated'] = 'yes'
+                ft.locs = [Location(1, 2, strand=str(ft.loc.strand))]
+            assert obs_fts(x) == before, 'operand changed by write/read of its text'
+            r2 = _cycle(x, 'str')
+            assert r2[1:] == _cycle(x, 'str')[1:], 'two identical calls differ'
+            if st[2] == 'str':
+                assert r2 == r, 'repeat of the cycle differs after mutating an earlier result'
+            res.append(r)
+        elif op == 'xsv':
+            x = live[st[1]]
+            before = obs_fts(x)
+            r = _xsv(x, st[2], st[3], st[4], st[5])
+            assert obs_fts(x) == before, 'operand changed by the table writer'
+            assert _xsv(x, st[2], st[3], st[4], not st[5]) == r, 'keys as str / list differ'
+            res.append(r)
+        elif op == 'rtext':
+            t = case['texts'][st[1]]
+            y = _read(t, 'str')
+            first = obs_fts(y)
+            for ft in y:
+                ft.name = 'mutated'
+                ft.meta._gff['ID'] = 'mutated'
+                ft.locs = [Location(1, 2, strand=str(ft.loc.strand))]
+            z = _read(t, 'str')
+            assert obs_fts(z) == first, 'second read of the same text differs after mutating the first result'
+            res.append(_cycle(z, 'str'))
+        elif op in ('edit', 'gffattr', 'relocs'):
+            x = live[st[1]]
+            if len(x):
+                ft = x[st[2] % len(x)]
+                if op == 'edit':
+                    v = dec(st[4])
+                    if st[3] in ('name', 'id', 'seqid', 'type'):
+                        setattr(ft, st[3], v)
+                    else:
+                        ft.meta[st[3]] = v
+                elif op == 'gffattr':
+                    if '_gff' not in ft.meta:
+                        ft.meta._gff = {}
+                    ft.meta._gff[st[3]] = dec(st[4])
+                else:
+                    ft.locs = [Location(a, b, strand=sd) for a, b, sd in st[3]]
+        else:
+            raise ValueError(op)
+    return res
 
 
 # ----------------------------------------------------------------------------- model terms
@@ -214,24 +399,55 @@ def _model_term(case):
         return 'out (run_C02_text %s)' % coq_bs(case['t'])
     if k == 'obj':
         return 'out (run_C02_obj %s)' % coq_list([coq_feat(f) for f in case['fts']])
+    if k == 'hist':
+        parts = []
+        for st, val in hist_trace(case):
+            if st[0] == 'gff':
+                parts.append('run_C02_obj %s' % coq_list([coq_feat(f) for f in val]))
+            elif st[0] == 'xsv':
+                parts.append('run_C02_xsv %s %s' % (_coq_keys(st[2]), coq_list([coq_feat(f) for f in val])))
+            else:
+                parts.append('run_C02_text %s' % coq_bs(val))
+        return 'out (VL %s)' % coq_list(parts)
+    if k == 'opt':
+        o = '(mkRopts %s %s %s)' % (coq_opt(case.get('filt'), lambda l: coq_list([coq_bs(x) for x in l])), coq_opt(case.get('fast'), coq_bs),
+                                    coq_opt(case.get('default'), coq_bs))
+        return 'out (run_C02_opt %s %s %s)' % (coq_bs(case['t']), o, coq_bs(case.get('header') or ''))
+    if k == 'xsv' and case.get('ftype') is not None:
+        ft = 'FStrand' if case['ftype'][0] == 'col' else '(FLit %s)' % coq_bs(case['ftype'][1])
+        return 'out (run_C02_xsv_t %s %s %s)' % (ft, _coq_keys(case['keys']), coq_list([coq_feat(f) for f in case['fts']]))
     if k == 'edit':
         eds = coq_list(['(%d%%nat, %s, %s)' % (i, coq_bs(key), coq_aval(v)) for i, key, v in case['edits']])
         return 'out (run_C02_edit %s %s)' % (coq_bs(case['t']), eds)
-    ks = coq_list([{'type': 'KType', 'start': 'KStart', 'stop': 'KStop', 'len': 'KLen', 'strand': 'KStrand'}[x] for x in case['keys']])
-    return 'out (run_C02_xsv %s %s)' % (ks, coq_list([coq_feat(f) for f in case['fts']]))
+    return 'out (run_C02_xsv %s %s)' % (_coq_keys(case['keys']), coq_list([coq_feat(f) for f in case['fts']]))
+
+
+def _coq_keys(keys):
+    return coq_list([{'type': 'KType', 'start': 'KStart', 'stop': 'KStop', 'len': 'KLen', 'strand': 'KStrand'}[x] for x in keys])
+
+
+def _xsv_wf(fts, keys):
+    # pandas reads a column back as text only if it does not look like numbers/booleans/NA markers (trusted layer)
+    for f in fts:
+        t = dict((k, v) for k, v in f['meta']).get('type')
+        if t is None or t[1].lower() in PANDAS_WORDS:
+            return False
+    return len(set(keys)) == len(keys)
 
 
 def split_model(case, m):
+    if case['_k'] == 'hist':
+        tr = hist_trace(case)
+        if not isinstance(m, list) or len(m) != len(tr) or any(not isinstance(x, list) or len(x) != 3 for x in m):
+            return False, m
+        wf = all(bool(x[0]) for x in m) and all(_xsv_wf(val, st[2]) for st, val in tr if st[0] == 'xsv')
+        return wf, [x[2] for x in m]
     if not isinstance(m, list) or len(m) != 3:
         return False, m
     wf = bool(m[0])
     if case['_k'] == 'xsv' and wf:
-        # pandas reads a column back as text only if it does not look like numbers/booleans/NA markers (trusted layer)
-        for f in case['fts']:
-            t = dict((k, v) for k, v in f['meta']).get('type')
-            if t is None or t[1].lower() in PANDAS_WORDS:
-                wf = False
-        if len(set(case['keys'])) != len(case['keys']):
+        wf = _xsv_wf(case['fts'], case['keys'])
+        if case.get('ftype') is not None and case['ftype'][0] == 'lit' and case['ftype'][1].lower() in PANDAS_WORDS:
             wf = False
     return wf, m[2]
 
@@ -307,7 +523,67 @@ def spec(case, got):
     return _spec(case, got, False)
 
 
+def _spec_hist(case, got, skip_firstloc):
+    if isinstance(got, dict):
+        return 'history raised %s' % got['e']
+    tr = hist_trace(case)
+    if len(got) != len(tr):
+        return 'history produced %d results for %d steps' % (len(got), len(tr))
+    for n, ((st, val), g) in enumerate(zip(tr, got)):
+        if st[0] == 'gff':
+            sub = {'_k': 'obj', 'fts': val}
+        elif st[0] == 'xsv':
+            sub = {'_k': 'xsv', 'fts': val, 'keys': st[2], '_sep': st[3], '_fmt': st[4]}
+        else:
+            sub = {'_k': 'text', 't': val}
+        r = _spec(sub, g, skip_firstloc)
+        if r:
+            return 'step %d (%s): %s' % (n, st[0], r)
+    return None
+
+
+def _spec_opt(case, got):
+    if isinstance(got, dict):
+        return 'raised %s on an input of the domain' % got['e']
+    o0, comments, w = got
+    lines = []
+    for ln in case['t'].split('\n'):
+        if ln.startswith('##FASTA'):
+            break
+        lines.append(ln)
+    if case['t'].endswith('\n') and lines and lines[-1] == '' and not case['t'].split('\n')[-2:-1] == ['##FASTA']:
+        lines = lines[:-1] if len(lines) == len(case['t'].split('\n')) else lines
+    fast = case.get('fast')
+    keep = [ln for ln in lines if fast is None or fast.lower() in (ln + '\n').lower()]
+    want_c = [ln for ln in keep if ln.startswith('#') or not ln.strip()]
+    if comments != want_c:
+        return 'comments %r, expected %r' % (comments, want_c)
+    data = [ln.strip().split('\t') for ln in keep if not (ln.startswith('#') or not ln.strip())]
+    filt = case.get('filt')
+    types = [(c[2] if c[2] != '.' else case.get('default')) for c in data]
+    if filt:
+        data = [c for c, t in zip(data, types) if t in filt]
+        types = [t for t in types if t in filt]
+    have = sorted((l[0], l[1], l[2]) for f in o0 for l in f[2])
+    want = sorted((int(c[3]) - 1, int(c[4]), c[6]) for c in data)
+    if have != want:
+        return 'locations read %r, selected lines have %r' % (have, want)
+    got_types = set(dict((k, tuple(v)) for k, v in f[0]).get('type', (0, None))[1] for f in o0)
+    if got_types - set(types):
+        return 'types %r read, selected lines have %r' % (got_types, set(types))
+    hdr = case.get('header') or ''
+    if not w.startswith('##gff-version 3\n' + hdr):
+        return 'header not written after the version line'
+    if len([ln for ln in w[len('##gff-version 3\n' + hdr):].split('\n') if ln]) != len(have):
+        return 'number of data lines'
+    return None
+
+
 def _spec(case, got, skip_firstloc):
+    if case['_k'] == 'opt':
+        return _spec_opt(case, got)
+    if case['_k'] == 'hist':
+        return _spec_hist(case, got, skip_firstloc)
     if case['_k'] == 'xsv':
         return spec_xsv(case, got)
     if isinstance(got, dict):
@@ -362,8 +638,16 @@ def _spec(case, got, skip_firstloc):
             return 'second write differs from the first' + ('' if normalised else ' (first location has attributes of its own)')
         if len(o1) != len(o0):
             return '%d features read back, %d written' % (len(o1), len(o0))
+        if len(set(i for i in (gid(f) for f in o1) if i is not None and str(i[0][1]).startswith('~id'))) != \
+                sum(1 for f in o0 if len(f[2]) > 1 and not _has_id(f)):
+            return 'invented IDs of split features without ID are not distinct'
         for f0, f1 in zip(o0, o1):
             e0, e1 = eff_feature(f0), eff_feature(f1)
+            invented = len(f0[2]) > 1 and not _has_id(f0)
+            if invented:
+                # the writer had to invent an ID for this split feature: it is read back with that ID and nothing else changes
+                for (_, _, _, d) in e1:
+                    d.pop('ID', None)
             if e0 != e1:
                 return 'feature changed by write/read: %r -> %r' % (e0, e1)
             # aliases of the feature read back
@@ -371,6 +655,8 @@ def _spec(case, got, skip_firstloc):
             base = e1[0][3] if f1[2][0][3] is None else None
             if base is not None:
                 for mk, gk in ALIAS.items():
+                    if invented and mk == 'id':
+                        continue
                     if (gk in base) != (mk in m1) or (gk in base and base[gk] != m1[mk]):
                         return 'alias %s of the feature read back is %r, attribute %s is %r' % (mk, m1.get(mk), gk, base.get(gk))
     return None
@@ -495,7 +781,7 @@ def rfeature(rng, idx, in_domain=True):
             meta.append([mk, v])
     rng.shuffle(meta)
     has_id = any(k == 'id' for k, _ in meta) or (gff is not None and any(k == 'ID' for k, _ in gff))
-    if (nloc > 1 or rng.random() < 0.4) and not has_id and (in_domain or rng.random() < 0.9):
+    if (nloc > 1 or rng.random() < 0.4) and not has_id and rng.random() < 0.85:
         if gff is None:
             gff = []
         idv = rng.choice(['cds%d' % idx, 'id %d;x' % idx, 'f%d' % idx, 'dup'])
@@ -527,7 +813,19 @@ def rfeature(rng, idx, in_domain=True):
 
 def gen_obj(rng, in_domain=True):
     n = rng.choice([1, 1, 2, 2, 3, 4])
-    return {'_k': 'obj', 'fts': [rfeature(rng, i, in_domain) for i in range(n)], '_via': 'file' if rng.random() < 0.1 else 'str'}
+    fts = [rfeature(rng, i, in_domain) for i in range(n)]
+    if rng.random() < 0.08:
+        # neighbouring split features without ID on one sequence, same type: the writer has to invent distinct IDs
+        for f in fts:
+            f['meta'] = [kv for kv in f['meta'] if kv[0] not in ('id', 'type', 'seqid')] + [['type', [0, 'CDS']], ['seqid', [0, 'chr1']]]
+            f['gff'] = [kv for kv in (f['gff'] or []) if kv[0] not in ('ID', 'seqid')] or None
+            if len(f['locs']) < 2:
+                a, b, sd, _ = f['locs'][0]
+                f['locs'].append([b + 5, b + 9, sd, None])
+    for f in fts:
+        if rng.random() < 0.15:
+            f['_ctor'] = rng.choice(['kw', 'tuple', 'type'])
+    return {'_k': 'obj', 'fts': fts, '_via': 'file' if rng.random() < 0.1 else 'str'}
 
 
 def q_indep(rng, s, style):
@@ -631,6 +929,102 @@ def gen_edit(rng):
     return {'_k': 'edit', 't': base['t'], 'edits': edits}
 
 
+def gen_opt(rng):
+    """reader options filt / filt_fast / default_ftype / comments and the writer's header"""
+    base = gen_text(rng, in_domain=True)
+    t = base['t']
+    if rng.random() < 0.7:
+        ls = t.split('\n')
+        for _ in range(rng.choice([1, 2, 3])):
+            ls.insert(rng.randrange(1, len(ls)), rng.choice(['# a comment', '', '  ', '#!genome-build x', '###', '#\tCDS\tx']))
+        t = '\n'.join(ls)
+    c = {'_k': 'opt', 't': t, 'filt': None, 'fast': None, 'default': None, 'header': None}
+    if rng.random() < 0.5:
+        c['filt'] = rng.sample(TYPES, rng.choice([0, 1, 2, 3])) + (['dflt'] if rng.random() < 0.3 else [])
+    if rng.random() < 0.4:
+        c['fast'] = rng.choice(['cds', 'CDS', 'gene', 'chr1', 'RefSeq', 'ID=', 'mrna', '\t+\t', 'comment', 'x'])
+    if rng.random() < 0.5:
+        c['default'] = rng.choice(['dflt', 'gene', 'CDS'])
+    if rng.random() < 0.6:
+        c['header'] = rng.choice(['#made by sugar\n', '##sequence-region chr1 1 1000\n#second line\n', ''])
+    return c
+
+
+def gen_hist(rng):
+    """history of calls on the same live FeatureLists / texts with edits in between (state independence)"""
+    import copy
+    base = [rfeature(rng, i, True) for i in range(rng.choice([1, 2, 2, 3]))]
+    for f in base:
+        if not any(k == 'type' for k, _ in f['meta']):
+            f['meta'].append(['type', [0, rng.choice(TYPES)]])
+    if len(base) > 1 and rng.random() < 0.4:
+        # two features built from the very same Location objects
+        j = rng.randrange(1, len(base))
+        base[j]['locs'] = copy.deepcopy(base[0]['locs'])
+        base[j]['_share'] = 0
+        if len(base[j]['locs']) > 1 and not (any(k == 'id' for k, _ in base[j]['meta']) or any(k == 'ID' for k, _ in (base[j]['gff'] or []))):
+            base[j]['meta'].append(['id', [0, 'shared%d' % j]])
+    lists = [base]
+    if rng.random() < 0.6:
+        # a second list that collides with the first on ids, lengths and coordinates but differs in content
+        other = copy.deepcopy(base)
+        for f in other:
+            f.pop('_share', None)
+            r = rng.random()
+            if r < 0.4 and f['gff']:
+                kv = rng.choice(f['gff'])
+                if kv[0] not in ('ID', 'seqid', 'source', 'score', 'phase'):
+                    kv[1] = rval(rng)
+            elif r < 0.7:
+                _spec_set(f['meta'], 'name', rval(rng))
+            else:
+                _spec_set(f['meta'], 'score', rscore(rng))
+        lists.append(other)
+    t = gen_text(rng, True)['t']
+    texts = [t]
+    if rng.random() < 0.5:
+        # same length, same first lines, one digit changed
+        idx = [i for i, ch in enumerate(t) if ch in '123456' and i > 20]
+        if idx:
+            i = rng.choice(idx)
+            texts.append(t[:i] + '7' + t[i + 1:])
+    steps = []
+    def keysel():
+        ks = [k for k in XKEYS if rng.random() < 0.8]
+        if 'type' not in ks:
+            ks.append('type')
+        while sum(k in ks for k in ('start', 'stop', 'len')) < 2:
+            ks.append(rng.choice([k for k in ('start', 'stop', 'len') if k not in ks]))
+        rng.shuffle(ks)
+        return ks
+    for _ in range(rng.choice([4, 5, 6, 8])):
+        li = rng.randrange(len(lists))
+        r = rng.random()
+        if r < 0.3:
+            steps.append(['gff', li, 'file' if rng.random() < 0.15 else 'str'])
+        elif r < 0.5:
+            fmt = rng.choice(['tsv', 'csv'])
+            steps.append(['xsv', li, keysel(), {'tsv': 'tab', 'csv': 'comma'}[fmt] if rng.random() < 0.6 else rng.choice(list(SEPS)), fmt, rng.random() < 0.5])
+        elif r < 0.62:
+            steps.append(['rtext', rng.randrange(len(texts))])
+        elif r < 0.8:
+            key = rng.choice(['name', 'id', 'seqid', 'score', 'phase', 'type'])
+            val = {'name': lambda: rval(rng), 'id': lambda: [0, 'h%d' % rng.randrange(3)], 'seqid': lambda: [0, rng.choice(['chrH', 'h 2;x'])],
+                   'score': lambda: rscore(rng), 'phase': lambda: [3, rng.choice([0, 1, 2])], 'type': lambda: [0, rng.choice(TYPES)]}[key]()
+            steps.append(['edit', li, rng.randrange(3), key, val])
+        elif r < 0.9:
+            k = rkey(rng, 0.0)
+            steps.append(['gffattr', li, rng.randrange(3), k if k not in ('ID', 'Name') else 'Note', rval(rng)])
+        else:
+            steps.append(['relocs', li, rng.randrange(3), rlocs(rng, rng.choice([1, 2, 3]))])
+    # every history ends with the same call twice on every list, in both formats
+    for li in range(len(lists)):
+        steps.append(['gff', li, 'str'])
+        steps.append(['xsv', li, keysel(), 'tab', 'tsv', False])
+        steps.append(['gff', li, 'str'])
+    return {'_k': 'hist', 'lists': lists, 'texts': texts, 'steps': steps}
+
+
 def mutate_text(rng, case):
     t = case['t']
     if len(t) < 20:
@@ -678,12 +1072,23 @@ def gen_xsv(rng):
         keys = ['type', 'start', 'stop', 'strand']
     fmt = rng.choice(['tsv', 'csv'])
     sep = {'tsv': 'tab', 'csv': 'comma'}[fmt] if rng.random() < 0.6 else rng.choice(list(SEPS))
-    return {'_k': 'xsv', 'keys': keys, '_sep': sep, '_fmt': fmt, 'fts': fts, '_keystr': rng.random() < 0.5}
+    c = {'_k': 'xsv', 'keys': keys, '_sep': sep, '_fmt': fmt, 'fts': fts, '_keystr': rng.random() < 0.5}
+    if rng.random() < 0.3:
+        if 'type' in keys and rng.random() < 0.7:
+            keys.remove('type')
+        if sum(k in keys for k in ('start', 'stop', 'len')) >= 2:
+            c['ftype'] = ['col', 'strand'] if rng.random() < 0.4 else ['lit', rng.choice(TYPES)]
+    for f in fts:
+        if rng.random() < 0.3:
+            f['_ctor'] = rng.choice(['kw', 'tuple', 'type'])
+    return c
 
 
 def gen_cases(rng, tier):
-    nobj, ntext, nmut, nxsv = (600, 420, 100, 180) if tier != 'thorough' else (9000, 6500, 1200, 1000)
+    nobj, ntext, nmut, nxsv = (500, 350, 80, 150) if tier != 'thorough' else (8000, 6000, 1000, 1000)
     nedit = 200 if tier != 'thorough' else 2500
+    nhist = 250 if tier != 'thorough' else 1500
+    nopt = 120 if tier != 'thorough' else 1500
     cases = []
     for _ in range(nobj):
         cases.append(gen_obj(rng, in_domain=rng.random() < 0.9))
@@ -695,6 +1100,10 @@ def gen_cases(rng, tier):
         cases.append(mutate_text(rng, rng.choice(texts)))
     for _ in range(nedit):
         cases.append(gen_edit(rng))
+    for _ in range(nhist):
+        cases.append(gen_hist(rng))
+    for _ in range(nopt):
+        cases.append(gen_opt(rng))
     if tier == 'thorough':
         # every permutation of every admissible column selection, both formats
         import itertools
@@ -719,6 +1128,8 @@ def _case_feats(case, got):
 def nontrivial(case, got):
     if isinstance(got, dict):
         return None
+    if case['_k'] == 'hist':
+        return 'hist:' + ','.join(st[0] for st in case['steps'])
     if case['_k'] == 'xsv':
         return 'xsv:' + ','.join(case['keys']) + ':' + case['_sep']
     marks = set()
@@ -746,7 +1157,11 @@ def nontrivial(case, got):
 
 def histkey(case, got):
     ks = ['kind=' + case['_k'], 'result=' + ('error:' + got['e'] if isinstance(got, dict) else 'ok')]
-    if case['_k'] == 'xsv':
+    if case['_k'] == 'hist':
+        ks.append('hist-steps=%d' % len(case['steps']))
+        for st in case['steps']:
+            ks.append('hist-op=' + st[0])
+    elif case['_k'] == 'xsv':
         ks.append('xsv-sep=' + case['_sep'])
         ks.append('xsv-ncols=%d' % len(case['keys']))
     elif isinstance(got, list):
@@ -770,16 +1185,49 @@ def features(case, got):
         for m in re.finditer(r'[\t;]\s*([^=;\t\n]*?)\s*=', case['t']):
             keys.add(pct_decode(m.group(1)))
     firstloc = False
-    if case['_k'] in ('obj', 'text', 'edit') and isinstance(got, list) and _ckey(case) not in _DISAGREED:
+    if case['_k'] in ('obj', 'text', 'edit', 'hist') and isinstance(got, list) and _ckey(case) not in _DISAGREED:
         try:
-            nonnorm = any(f[2][0][3] is not None for f in got[0])
+            cyc = [g for (st, _), g in zip(hist_trace(case), got) if st[0] != 'xsv'] if case['_k'] == 'hist' else [got]
+            nonnorm = any(f[2][0][3] is not None for g in cyc for f in g[0])
             firstloc = bool(nonnorm and _spec(case, got, False) is not None and _spec(case, got, True) is None)
         except Exception:
             firstloc = False
     return {'key_in_reserved_set': bool(keys & ATTR_RESERVED), 'kind': case['_k'], 'firstloc_overrides': firstloc}
 
 
+def extra_checks(rng, tier, cov):
+    """error paths of LocationTuple / Feature construction (no model needed)"""
+    from sugar.core.fts import LocationTuple, Location, Feature
+    tests = [('LocationTuple()', lambda: LocationTuple(), ValueError),
+             ('LocationTuple([])', lambda: LocationTuple([]), ValueError),
+             ('LocationTuple(locs, start=1)', lambda: LocationTuple([Location(1, 2)], start=1), ValueError),
+             ('LocationTuple([(5, 1)])', lambda: LocationTuple([(5, 1)]), TypeError),
+             ('LocationTuple(mixed strands)', lambda: LocationTuple([Location(1, 2, '+'), Location(3, 4, '-')]), ValueError),
+             ('Location(3, 3)', lambda: Location(3, 3), ValueError),
+             ('Feature()', lambda: Feature('x'), ValueError)]
+    n = 0
+    for name, fn, exc in tests:
+        n += 1
+        try:
+            fn()
+            yield {'case': {'_k': 'ctor', 'call': name}, 'impl': 'no error', 'spec': '%s must raise %s' % (name, exc.__name__), 'noshrink': True}
+        except exc:
+            pass
+        except Exception as e:
+            yield {'case': {'_k': 'ctor', 'call': name}, 'impl': type(e).__name__, 'spec': '%s raised %s, expected %s' % (name, type(e).__name__, exc.__name__), 'noshrink': True}
+    lt = LocationTuple(start=3, stop=9, strand='-')
+    if [(l.start, l.stop, str(l.strand)) for l in lt] != [(3, 9, '-')]:
+        yield {'case': {'_k': 'ctor', 'call': 'LocationTuple(start, stop, strand)'}, 'impl': repr(lt), 'spec': 'keyword form', 'noshrink': True}
+    cov['ctor_error_paths'] = n
+
+
 def python_snippet(case):
+    if case['_k'] == 'ctor':
+        return 'from sugar.core.fts import LocationTuple, Location, Feature; ' + case['call']
+    if case['_k'] == 'opt':
+        return ("import sys; sys.path.insert(0, '/verif/tools')\nfrom props.c02 import impl\ncase = %r\nfor part in impl(case): print(part)" % (case,))
+    if case['_k'] == 'hist':
+        return ("import sys; sys.path.insert(0, '/verif/tools')\nfrom props.c02 import impl\ncase = %r\nfor part in impl(case): print(part)" % (case,))
     if case['_k'] == 'text':
         return ("import io\nfrom sugar import read_fts\nt = %r\nx = read_fts(io.StringIO(t), fmt='gff')\nw1 = x.tofmtstr('gff')\n"
                 "x1 = read_fts(io.StringIO(w1), fmt='gff')\nw2 = x1.tofmtstr('gff')\nw3 = read_fts(io.StringIO(w2), fmt='gff').tofmtstr('gff')\n"
@@ -796,25 +1244,34 @@ def python_snippet(case):
 
 
 LEVEL_TEXT = ('Machine-checked Coq theorems about an executable Gallina model of sugar\'s GFF3 reader/writer (line parser, percent-encoding, '
-              'attribute column, same-ID merge with per-location difference dicts, copyattrs aliases, writer with per-location lines, '
-              'LocationTuple ordering) and of the TSV/CSV column arithmetic. Main theorem C02_gff_roundtrip_fix: for every feature list of the '
-              'domain, write -> read -> write is byte-identical and every feature is read back with the same type, ordered locations, '
-              'coordinates, strand and per-location effective attributes (seqid, source, score, phase, list values, reserved characters). '
-              'The model is tied to /repo on every run: copyattrs, the reserved Attr names and urllib\'s safe set are regenerated, and model '
-              'and implementation are compared on parsed features and three successive written texts for generated objects, generated '
-              'and mutated GFF text, and TSV/CSV files through the real pandas.')
-LEVEL_NOTE = ('Proved (all closed under the global context): unquote(quote s) = s for every byte string; quoted fields contain no separator; '
-              'decimal coordinates round-trip (columns 4/5 are start+1 and stop); key=value items and the whole attribute column round-trip '
-              'with order and list values; one line <-> (type, seqid, source, score, phase, strand, location, attributes) for every '
-              'combination of present/absent columns; LocationTuple output is a sorted permutation and idempotent; one line per location and '
-              'read(write x) has one feature per feature with the same ordered locations; second write byte-identical and effective '
-              'attributes kept (main theorem); any two of start/stop/len recover the range for any column selection and order. '
-              'Refuted with a witness and excluded from the theorems\' domain (rt_C02), but still generated and checked by the oracle: features '
-              'whose first 5\'->3\' location has attributes of its own (one cycle moves them to the feature level: '
-              'C02_firstloc_overrides_refuted; open finding F39, reported as KNOWN-FINDING only when it is the sole failure of a case '
-              'and model and code agree). Per-line source (F38, fixed in 3e14524) is inside the domain: C02_loc_source_kept. Only tested, not proved: the third write '
-              'equals the second for arbitrary lists without neighbouring features of one (ID, type, seqid); reader robustness on foreign text (blanks, lower-case escapes, '
-              'comments, ##FASTA); dispatch read_fts/write_fts; everything pandas does. Trusted: Coq kernel/vm_compute, tools/gens/c02.py, the '
+              'attribute column, same-ID merge with per-location difference dicts, copyattrs aliases, writer with per-location lines and '
+              'per-line source, LocationTuple ordering, reader options) and of the TSV/CSV column arithmetic. Main theorems: '
+              'C02_gff_roundtrip_fix (for every feature list of the domain, write -> read -> write is byte-identical and every feature is '
+              'read back with the same type, ordered locations, coordinates, strand and per-location effective attributes) and '
+              'C02_gff_third_write (also when first locations carry attributes of their own, what is read back lies in that domain, so the '
+              'text is stable from the second write on). The model is tied to /repo on every run: copyattrs, the reserved Attr names and '
+              'urllib\'s safe set are regenerated, and model and implementation are compared on parsed features and three successive '
+              'written texts for generated objects, generated and mutated GFF text, edited features, call histories on shared live objects, '
+              'reader/writer options, and TSV/CSV files through the real pandas.')
+LEVEL_NOTE = ('Proved (30 theorems, all closed under the global context): unquote(quote s) = s for every byte string and unquote of any mixed '
+              'raw / upper- / lower-case escape encoding; quoted fields contain no separator; decimal coordinates round-trip (columns 4/5 are '
+              'start+1 and stop); key=value items (also padded with blanks) and the whole attribute column round-trip with order and list '
+              'values; one line <-> (type, seqid, source, score, phase, strand, location, attributes) for every combination of present / '
+              'absent columns; LocationTuple output is a sorted permutation and idempotent; one line per location; read(write x) has one '
+              'feature per feature with the same ordered locations; aliases after reading are the attributes; second write byte-identical '
+              'and effective attributes kept (main theorem); third write = second write outside the normalised domain (F39 region '
+              'included); comment / blank lines are ignored anywhere and reading stops at ##FASTA; the option reader with options off and '
+              'the harness writer (invented IDs canonicalised) are the reader / writer of the theorems; any two of start/stop/len recover the '
+              'range for any column selection and order, per feature and over whole lists. '
+              'Refuted with a witness and excluded from the round-trip theorem\'s domain (rt_C02), but generated and checked by the oracle: '
+              'features whose first 5\'->3\' location has attributes of its own (C02_firstloc_overrides_refuted; open finding F39, reported as '
+              'KNOWN-FINDING only when it is the sole failure of a case and model and code agree); neighbouring features with one '
+              '(ID, type, seqid) are one feature to the reader (C02_adjacent_same_id_refuted). Per-line source (F38) is inside the domain: '
+              'C02_loc_source_kept. Only tested, not proved: split features without ID (the writer invents distinct IDs); filt / filt_fast / '
+              'default_ftype / comments / header options; file order of the lines of a split feature (beyond the ordering theorems); '
+              'state independence (histories); dispatch read_fts/write_fts; everything pandas does (separators, quoting, dtype inference). '
+              'Statement coverage of the modelled functions in the quick tier: 100 % except sugar/_io/tab/xsv.py lines 86-87 and 95-96 '
+              '(ImportError branches, unreachable with pandas installed). Trusted: Coq kernel/vm_compute, tools/gens/c02.py, the '
               'correspondence harness, CPython str/int/float/dict/sorted, urllib quote/unquote on ASCII. Domain: ASCII fields; keys not '
               'starting with "_" and not a public Attr method name (open finding F20); scores are literals d+.d+ that repr(float()) reproduces.')
 TECHNIQUE = 'Coq proof over a hand-written executable model + per-run model/implementation correspondence and regenerated constants'
